@@ -204,7 +204,10 @@ class Report:
             'seed': seed(),
             'level': self.level,
             'coverage': self.cov,
-            'assumptions': self.assumptions,
+            'assumptions': (self.assumptions or []) + [
+                'TLC 1.8 and the CommunityModules Json reader evaluate the specification and load the recorded events correctly',
+                'harness/project.py projects hpl objects faithfully (generic walk over attrs fields)',
+                'bounded: the enumerated families / token bounds / valuation grids named in DESIGN.md section 12 and in this file'],
             'wall_s': round(time.time() - self.t0, 2),
             'violations': len(bysig),
         }
